@@ -13,7 +13,10 @@ structure SoSt where
   savedFired : Bool := false
   proc : ProcSt := {}
   errs : List (ErrKind × Nat) := []   -- failures the environment produced as request/processor results
+  bad : Bool := false
   deriving DecidableEq, Repr
+
+instance : HasBad SoSt := ⟨SoSt.bad⟩
 
 def soErr (m : SoSt) (k : ErrKind) (t : Nat) : SoSt := { m with errs := (k, t) :: m.errs }
 
@@ -23,27 +26,27 @@ def soFailOk (m : SoSt) : Fail → Bool
   | .ext k t => m.errs.contains (k, t)
   | .opInProgress _ => false
 
-def soStep (m0 : SoSt) (x : Item) : Option SoSt :=
+def soStep (m0 : SoSt) (x : Item) : SoSt :=
   let m := { m0 with proc := procTrack m0.proc x }
   match x with
-  | .ev (.start _) => some { m with running := true, fired := false, savedRunning := m.running, savedFired := m.fired }
-  | .ob .raisedRestart => some { m with running := m.savedRunning, fired := m.savedFired }
-  | .ev (.fetchErr _ k t) => some (soErr m k t)
-  | .ev (.offsetErr _ k t) => some (soErr m k t)
-  | .ev (.offsetFetchErr _ k t) => some (soErr m k t)
-  | .ev (.commitErr _ k t) => some (soErr m k t)
-  | .ev (.procErr k t) => some (soErr m k t)
-  | .ob (.procRet (.err k t)) => some (soErr m k t)
-  | .ev (.fetchOk _ r) => some (match r.tail with | .raise k t => soErr m k t | _ => m)
+  | .ev (.start _) => { m with running := true, fired := false, savedRunning := m.running, savedFired := m.fired }
+  | .ob .raisedRestart => { m with running := m.savedRunning, fired := m.savedFired }
+  | .ev (.fetchErr _ k t) => soErr m k t
+  | .ev (.offsetErr _ k t) => soErr m k t
+  | .ev (.offsetFetchErr _ k t) => soErr m k t
+  | .ev (.commitErr _ k t) => soErr m k t
+  | .ev (.procErr k t) => soErr m k t
+  | .ob (.procRet (.err k t)) => soErr m k t
+  | .ev (.fetchOk _ r) => (match r.tail with | .raise k t => soErr m k t | _ => m)
   | .ob (.startFired r) =>
     if m.running && !m.fired then
       match r with
-      | .ok v => if v == m.proc.processed then some { m with fired := true } else none
-      | .err f => if soFailOk m f then some { m with fired := true } else none
-    else none
-  | .ob (.stopReturned v) => if m.fired && v == m.proc.processed then some { m with running := false } else none
-  | .ob (.shutdownFired (.ok v)) => if m.fired && v == m.proc.processed then some { m with running := false } else none
-  | _ => some m
+      | .ok v => if v == m.proc.processed then { m with fired := true } else { m with bad := true }
+      | .err f => if soFailOk m f then { m with fired := true } else { m with bad := true }
+    else { m with bad := true }
+  | .ob (.stopReturned v) => if m.fired && v == m.proc.processed then { m with running := false } else { m with bad := true }
+  | .ob (.shutdownFired (.ok v)) => if m.fired && v == m.proc.processed then { m with running := false } else { m with bad := true }
+  | _ => m
 
 def startOnceOk (tr : List Item) : Bool := accepts soStep {} tr
 
@@ -56,16 +59,23 @@ structure QSt where
   reqs : List Nat := []          -- outstanding, uncancelled client requests
   procPending : Bool := false
   manual : Bool := false         -- the application called `commit()` on the stopped consumer: commit traffic is its own
+  bad : Bool := false
   deriving DecidableEq, Repr
 
-def qActive (m : QSt) : Option QSt := if m.running then some m else none
+instance : HasBad QSt := ⟨QSt.bad⟩
 
-def qCommitActive (m : QSt) : Option QSt := if m.running || m.manual then some m else none
+def qActive (m : QSt) : QSt := if m.running then m else { m with bad := true }
 
-def qStep (m : QSt) : Item → Option QSt
-  | .ev (.start _) => some { m with running := true, saved := m.running }
-  | .ev .commit => some (if m.running then m else { m with manual := true })
-  | .ob .raisedRestart => some { m with running := m.saved }
+def qCommitActive (m : QSt) : QSt := if m.running || m.manual then m else { m with bad := true }
+
+def qQuiet (m : QSt) : QSt :=
+  if m.timers.isEmpty && m.reqs.isEmpty && !m.procPending then { m with running := false, manual := false } else { m with bad := true }
+
+def qStep (m : QSt) : Item → QSt
+  | .ev (.start _) => { m with running := true, saved := m.running }
+  | .ev .commit => if m.running then m else { m with manual := true }
+  | .ob (.act .commit) => if m.running then m else { m with manual := true }
+  | .ob .raisedRestart => { m with running := m.saved }
   | .ob (.fetch k _ _) => qActive { m with reqs := k :: m.reqs }
   | .ob (.offsets k _) => qActive { m with reqs := k :: m.reqs }
   | .ob (.offsetFetch k) => qActive { m with reqs := k :: m.reqs }
@@ -73,28 +83,26 @@ def qStep (m : QSt) : Item → Option QSt
   | .ob (.setTimer .commit _) => qCommitActive { m with timers := .commit :: m.timers }
   | .ob (.proc _) => qActive m
   | .ob (.setTimer t _) => qActive { m with timers := t :: m.timers }
-  | .ob (.cancelTimer t) => some { m with timers := m.timers.erase t }
-  | .ev .retryFire => some { m with timers := m.timers.erase .retry }
-  | .ev .commitRetryFire => some { m with timers := m.timers.erase .commit }
-  | .ev .autoCommitTick => some { m with timers := m.timers.erase .loop }
-  | .ob (.cancelReq k) => some { m with reqs := m.reqs.erase k }
-  | .ev (.fetchOk k _) => some { m with reqs := m.reqs.erase k }
-  | .ev (.fetchErr k _ _) => some { m with reqs := m.reqs.erase k }
-  | .ev (.offsetOk k _) => some { m with reqs := m.reqs.erase k }
-  | .ev (.offsetErr k _ _) => some { m with reqs := m.reqs.erase k }
-  | .ev (.offsetFetchOk k _) => some { m with reqs := m.reqs.erase k }
-  | .ev (.offsetFetchErr k _ _) => some { m with reqs := m.reqs.erase k }
-  | .ev (.commitOk k) => some { m with reqs := m.reqs.erase k }
-  | .ev (.commitErr k _ _) => some { m with reqs := m.reqs.erase k }
-  | .ob (.procRet .defer) => some { m with procPending := true }
-  | .ob .procCancel => some { m with procPending := false }
-  | .ev .procOk => some { m with procPending := false }
-  | .ev (.procErr _ _) => some { m with procPending := false }
-  | .ob (.stopReturned _) =>
-    if m.timers.isEmpty && m.reqs.isEmpty && !m.procPending then some { m with running := false, manual := false } else none
-  | .ob (.shutdownFired (.ok _)) =>
-    if m.timers.isEmpty && m.reqs.isEmpty && !m.procPending then some { m with running := false, manual := false } else none
-  | _ => some m
+  | .ob (.cancelTimer t) => { m with timers := m.timers.erase t }
+  | .ev .retryFire => { m with timers := m.timers.erase .retry }
+  | .ev .commitRetryFire => { m with timers := m.timers.erase .commit }
+  | .ev .autoCommitTick => { m with timers := m.timers.erase .loop }
+  | .ob (.cancelReq k) => { m with reqs := m.reqs.erase k }
+  | .ev (.fetchOk k _) => { m with reqs := m.reqs.erase k }
+  | .ev (.fetchErr k _ _) => { m with reqs := m.reqs.erase k }
+  | .ev (.offsetOk k _) => { m with reqs := m.reqs.erase k }
+  | .ev (.offsetErr k _ _) => { m with reqs := m.reqs.erase k }
+  | .ev (.offsetFetchOk k _) => { m with reqs := m.reqs.erase k }
+  | .ev (.offsetFetchErr k _ _) => { m with reqs := m.reqs.erase k }
+  | .ev (.commitOk k) => { m with reqs := m.reqs.erase k }
+  | .ev (.commitErr k _ _) => { m with reqs := m.reqs.erase k }
+  | .ob (.procRet .defer) => { m with procPending := true }
+  | .ob .procCancel => { m with procPending := false }
+  | .ev .procOk => { m with procPending := false }
+  | .ev (.procErr _ _) => { m with procPending := false }
+  | .ob (.stopReturned _) => qQuiet m
+  | .ob (.shutdownFired (.ok _)) => qQuiet m
+  | _ => m
 
 def quiescentOk (tr : List Item) : Bool := accepts qStep {} tr
 
@@ -102,34 +110,39 @@ def quiescentOk (tr : List Item) : Bool := accepts qStep {} tr
 
 structure ShSt where
   asked : Bool := false            -- an accepted `shutdown()` has not completed yet
+  savedAsked : Bool := false
   inProc : Bool := false           -- between `proc` and `procRet`
   procPending : Bool := false
   proc : ProcSt := {}
   lc : Option Int := none          -- last committed offset, as acknowledged so far
   reqs : List (Nat × Int) := []    -- commit requests issued: (id, offset)
+  bad : Bool := false
   deriving DecidableEq, Repr
 
-def shStep (group : Bool) (m0 : ShSt) (x : Item) : Option ShSt :=
+instance : HasBad ShSt := ⟨ShSt.bad⟩
+
+def shStep (group : Bool) (m0 : ShSt) (x : Item) : ShSt :=
   let m := { m0 with proc := procTrack m0.proc x }
   match x with
-  | .ev .shutdown => some { m with asked := true }
-  | .ob .shutdownRejected => some m
-  | .ob (.proc _) => if m.asked && !m.inProc then none else some { m with inProc := true }
-  | .ob (.procRet r) => some { m with inProc := false, procPending := (r == .defer) }
-  | .ob .procCancel => some { m with procPending := false }
-  | .ev .procOk => some { m with procPending := false }
-  | .ev (.procErr _ _) => some { m with procPending := false }
-  | .ob (.commitReq k off) => some { m with reqs := (k, off) :: m.reqs }
-  | .ev (.commitOk k) => some (match m.reqs.lookup k with | some off => { m with lc := some off } | none => m)
-  | .ob (.probe _ lc) => some { m with lc := lc }
+  | .ev .shutdown => { m with asked := true, savedAsked := m.asked }
+  | .ob (.act .shutdown) => { m with asked := true, savedAsked := m.asked }
+  | .ob .shutdownRejected => { m with asked := m.savedAsked }
+  | .ob (.proc _) => if m.asked && !m.inProc then { m with bad := true } else { m with inProc := true }
+  | .ob (.procRet r) => { m with inProc := false, procPending := (r == .defer) }
+  | .ob .procCancel => { m with procPending := false }
+  | .ev .procOk => { m with procPending := false }
+  | .ev (.procErr _ _) => { m with procPending := false }
+  | .ob (.commitReq k off) => { m with reqs := (k, off) :: m.reqs }
+  | .ev (.commitOk k) => (match m.reqs.lookup k with | some off => { m with lc := some off } | none => m)
+  | .ob (.probe _ lc) => { m with lc := lc }
   | .ob (.shutdownFired (.ok v)) =>
     -- waited for the processor; reports the last processed offset; with a group, that offset is committed
-    if m.procPending then none
-    else if v != m.proc.processed then none
-    else if group && m.proc.processed.isSome && m.proc.processed != m.lc then none
-    else some { m with asked := false }
-  | .ob (.shutdownFired (.err _)) => some { m with asked := false }
-  | _ => some m
+    if m.procPending then { m with bad := true }
+    else if v != m.proc.processed then { m with bad := true }
+    else if group && m.proc.processed.isSome && m.proc.processed != m.lc then { m with bad := true }
+    else { m with asked := false }
+  | .ob (.shutdownFired (.err _)) => { m with asked := false }
+  | _ => m
 
 def shutdownOk (group : Bool) (tr : List Item) : Bool := accepts (shStep group) {} tr
 
